@@ -359,19 +359,21 @@ type vfDelivery struct {
 }
 
 type vfConn struct {
-	net      *vfNet
-	side     int
-	in       chan []byte
-	closed   chan struct{}
-	once     sync.Once
-	mu       sync.Mutex
-	rdl      chan struct{}
-	rdlTimer *time.Timer
-	nSent    int
-	writeErr error      // when set, Write fails with it
-	readErrC chan error // injected read failure
-	closedAt time.Time
-	lateW    int // Write calls that started after Close returned
+	net       *vfNet
+	side      int
+	in        chan []byte
+	closed    chan struct{}
+	once      sync.Once
+	mu        sync.Mutex
+	rdl       chan struct{}
+	rdlTimer  *time.Timer
+	nSent     int
+	writeErr  error      // when set, Write fails with it
+	readErrC  chan error // injected read failure
+	closedAt  time.Time
+	lateW     int // Write calls that started after Close returned
+	lateWAt   []time.Duration
+	firstWErr time.Duration // instant of the first Write that failed with the injected error
 }
 
 type vfNet struct {
@@ -426,6 +428,9 @@ func (c *vfConn) Write(p []byte) (int, error) {
 	case <-c.closed:
 		if !c.closedAt.IsZero() {
 			c.lateW++
+			if len(c.lateWAt) < 64 {
+				c.lateWAt = append(c.lateWAt, c.net.now())
+			}
 		}
 		c.mu.Unlock()
 		return 0, io.ErrClosedPipe
@@ -433,6 +438,9 @@ func (c *vfConn) Write(p []byte) (int, error) {
 	}
 	if c.writeErr != nil {
 		err := c.writeErr
+		if c.firstWErr == 0 {
+			c.firstWErr = c.net.now()
+		}
 		c.mu.Unlock()
 		return 0, err
 	}
